@@ -24,7 +24,10 @@ func VerifHarness_C08_Merge() {
 		{Command: c08Atom("p1"), Description: "zorgblat quota", Keywords: []string{"mine"}},
 		{Command: c08Atom("p2"), Description: "other note", Keywords: nil},
 	}
-	switch verifIntRange("p2kind", 0, 2) {
+	switch verifIntRange("p2kind", 0, 3) {
+	case 3: // a here-document style command ends in a line break
+		persCmds[1].Command = persCmds[1].Command + " <<EOF\nx\nEOF\n"
+		persCmds[1].Description = "multi line\n"
 	case 1:
 		persCmds[1].Command = "" // `wtf save "" "note"` is a legal (if odd) notebook entry
 	case 2:
